@@ -8,6 +8,8 @@ unfolding the model; the instances of `CRel` use only these.
 
 variable {σ : Type}
 
+namespace Conserve
+
 /-- a granted `_do_put` of request `e` on resource `r` (with the request leaving the queue) -/
 structure PutEffect (s s' : KState ℚ σ) (r : ResId) (e : EvId) : Prop where
   size : s'.events.size = s.events.size
@@ -526,3 +528,5 @@ theorem dropGetQ_res (s : KState ℚ σ) (r : ResId) (e : EvId) (r' : ResId) :
     (dropGetQ s r e).res r' = if r' = r ∧ r < s.resources.size then { s.res r with getQ := (s.res r).getQ.erase e } else s.res r' := by
   unfold dropGetQ KState.setGetQ
   rw [KState.res_setRes]
+
+end Conserve
